@@ -57,7 +57,7 @@ M = [
     ("c13-ifft-no-conj", ["C13"], "fast_fft.rs", "            .take(n)\n            .map(|c| Complex64::new(c.re, -c.im))\n            .collect_vec();\n        let ninv", "            .take(n)\n            .map(|c| Complex64::new(c.re, -c.im * 0.9999999))\n            .collect_vec();\n        let ninv"),
     ("c14-threshold-le", ["C14"], "polynomial.rs", "        if t < K * Q {", "        if t <= K * Q {"),
     ("c14-little-endian", ["C14", "C16"], "polynomial.rs", "let t = ((randomness[0] as u32) << 8) | (randomness[1] as u32);", "let t = ((randomness[1] as u32) << 8) | (randomness[0] as u32);"),
-    ("c15-seed-prefix", ["C15"], "falcon.rs", "        let mut rng: StdRng = SeedableRng::from_seed(seed);", "        let mut seed = seed;\n        seed[31] &= 0x7f;\n        let mut rng: StdRng = SeedableRng::from_seed(seed);"),
+    ("c15-seed-prefix", ["C15"], "falcon.rs", "    pub(crate) fn gen_b0(seed: [u8; 32]) -> [Polynomial<i16>; 4] {\n        let mut rng: StdRng = SeedableRng::from_seed(seed);", "    pub(crate) fn gen_b0(seed: [u8; 32]) -> [Polynomial<i16>; 4] {\n        let mut seed = seed;\n        seed[31] &= 0x7f;\n        let mut rng: StdRng = SeedableRng::from_seed(seed);"),
     ("c15-thread-rng-mixed", ["C15"], "math.rs", "            .map(|_| sampler_z(mu, sigma_star, sigma_star - 0.001, rng))", "            .map(|_| sampler_z(mu + (rand::random::<u8>() == 255 && rand::random::<u8>() > 250) as u8 as f64, sigma_star, sigma_star - 0.001, rng))"),
     ("c17-round-to-floor", ["C17"], "math.rs", "        let k_ntt = quotient.map(|f| U32Field::new(f.re.round() as i32)).fft();", "        let k_ntt = quotient.map(|f| U32Field::new(f.re.floor() as i32)).fft();"),
     ("c17-plain-value", ["C17", "C04"], "math.rs", "        let kf = kf_ntt.map(|p| p.balanced_value());", "        let kf = kf_ntt.map(|p| p.value());"),
